@@ -30,8 +30,13 @@ def bfs(build, events, canon, invariant, depth, enabled=None, max_states=None):
             state = build(h2)
             transitions += 1
             max_depth = max(max_depth, len(h2))
+            bad = False
             for tag, msg in invariant(state, h2):
                 violations.append((h2, tag, msg))
+                bad = True
+            if bad:
+                # an error state: reported, not expanded (its successors would only repeat it)
+                continue
             k = canon(state)
             if k not in seen:
                 if max_states is not None and len(seen) >= max_states:
